@@ -64,7 +64,7 @@ CHECKS = {
         "assumptions": ["inter-BitXHub notices (signed BEGIN_FAILURE/BEGIN_ROLLBACK from a destination hub) are exercised by the C03 check, not here",
                         "all proofs are valid here (HappyRule); proof handling is C03"],
         "quick": [T("TestC04", 8, 150, steps=30)],
-        "thorough": [T("TestC04", 16, 4000, steps=45, timeout=3000)],
+        "thorough": [T("TestC04", 16, 1200, steps=45, timeout=3000)],
     },
     "C06": {
         "level": "exploration",
@@ -75,7 +75,7 @@ CHECKS = {
                  "one block of H+T, >=2 ids sharing an expiry height, or a restart inside (H,H+T); distinct = hash of history."),
         "assumptions": ["one-to-many groups and their timeouts are decided by the C05 check"],
         "quick": [T("TestC06", 8, 150, steps=30)],
-        "thorough": [T("TestC06", 16, 4000, steps=45, timeout=3000)],
+        "thorough": [T("TestC06", 16, 1200, steps=45, timeout=3000)],
     },
     "C02": {
         "level": "exploration",
@@ -92,7 +92,7 @@ CHECKS = {
         "assumptions": ["all services are ordered (unordered/batch services are out of the statement)",
                         "delivery to the union pier of a remote BitXHub is covered by the C03 check's inter-hub cases"],
         "quick": [T("TestC02", 8, 150, steps=35)],
-        "thorough": [T("TestC02", 16, 4000, steps=50, timeout=3000)],
+        "thorough": [T("TestC02", 16, 3000, steps=50, timeout=3000)],
     },
     "C05": {
         "level": "exploration",
@@ -144,7 +144,7 @@ CHECKS = {
         "assumptions": ["replicas run one after another in one process; the harness does not own the Go scheduler, divergence that needs a particular goroutine interleaving is only sampled",
                         "a non-reproducing (rapid: flaky) failure is reported with its full history: the nondeterminism is the defect"],
         "quick": [T("TestC01", 8, 50, steps=30)],
-        "thorough": [T("TestC01", 16, 2500, steps=30, timeout=3000)],
+        "thorough": [T("TestC01", 16, 1500, steps=30, timeout=3000)],
     },
     "C14": {
         "level": "exploration",
@@ -175,7 +175,7 @@ CHECKS = {
         "assumptions": ["a transaction hash occurring in two blocks is out of the domain (ordering forbids it)",
                         "receipt hash and header marshalling are taken from bitxhub-model (the definition of the committed bytes)"],
         "quick": [T("TestC09", 8, 60, steps=25)],
-        "thorough": [T("TestC09", 16, 2500, steps=40, timeout=3000)],
+        "thorough": [T("TestC09", 16, 1200, steps=40, timeout=3000)],
     },
     "C12": {
         "level": "exploration",
@@ -229,7 +229,7 @@ CHECKS = {
         "assumptions": ["a process death leaves a prefix of each sequential write sequence; arbitrary subsets (power loss without fsync) are not enumerated",
                         "one leveldb batch and one file append are atomic units"],
         "quick": [T("TestC11", 8, 8, steps=30)],
-        "thorough": [T("TestC11", 16, 400, steps=30, timeout=3000)],
+        "thorough": [T("TestC11", 16, 250, steps=30, timeout=3000)],
     },
     "C07": {
         "level": "exploration",
